@@ -156,6 +156,8 @@ structure St where
       that was not in the future any more (`CribToKinder` has no late-registration rule), and that
       had no kindergarten entry when the incarnation started -/
   lateCrib : List String := []
+  /-- state the log was in when THIS incarnation wiped it (`WipeHistory`) -/
+  wipedFrom : Option Nat := none
   caseFails : Nat := 0
   sawWrite : Bool := false
   -- crash-free outcomes per scenario
@@ -504,8 +506,10 @@ def monitorWrite (s : St) (sn : Snap) (isFullyClosedMark : Bool) : IO St := do
   if isFullyClosedMark then
     if !prev.contracts.isEmpty then
       s ← monitor s "resolved_last_log" "marked_with_unresolved" s!"channel marked fully resolved while the log holds {prev.contracts.map (·.1)}"
-    if prev.st != 4 then
-      s ← monitor s "resolved_last_log" "marked_before_state" s!"channel marked fully resolved in state {prev.st}"
+    -- the state reached: a log this incarnation has already wiped counts with the state it had
+    let reached := if prev.st == 0 && !prev.res then s.wipedFrom.getD prev.st else prev.st
+    if reached != 4 then
+      s ← monitor s "resolved_last_log" "marked_before_state" s!"channel marked fully resolved in state {reached}"
     -- the property's clause: every stateful contract of the channel was resolved (and deleted)
     for c in s.spec.contracts do
       if c.kind.persisted then
@@ -520,7 +524,7 @@ def monitorWrite (s : St) (sn : Snap) (isFullyClosedMark : Bool) : IO St := do
       s ← monitor s "resolved_last_log" "state_with_unresolved" s!"StateFullyResolved committed while the log holds {prev.contracts.map (·.1)}"
   if sn.st == 0 && !sn.res && prev.st != 0 then
     -- WipeHistory
-    return { s with prev := sn }
+    return { s with prev := sn, wipedFrom := some prev.st }
   -- the write is the re-executed InsertUnresolvedContracts of an incarnation that found the log in
   -- StateContractClosed: state still ContractClosed before and after, first insert of the incarnation
   let reexec := s.epochNo > 1 && s.epochStartSt == 2 && prev.st == 2 && sn.st == 2 &&
@@ -598,7 +602,7 @@ def step (s : St) (line : String) : IO St := do
                       epochNo := 0, epochStartSt := 0, ccEpoch := none, ccDeleted := [], ccPresent := [],
                       touchedSinceCC := [], overwritten := [], resolvedAtStart := [],
                       f2Window := false, envHeight := (kvNat? rest "h0").getD 0, prevNursery := [],
-                      nurseryAtStart := [], lateCrib := [] }
+                      nurseryAtStart := [], lateCrib := [], wipedFrom := none }
     if s.samples < 4 && crashed then
       IO.println s!"SAMPLE {line}"
       return { s with samples := s.samples + 1 }
@@ -631,7 +635,7 @@ def step (s : St) (line : String) : IO St := do
     let pending := kv? rest "pending" == some "true"
     -- monitor: stop windows, from the implementation's own durable state
     let mut s := s
-    s := { s with epochNo := ep, epochStartSt := stc, nurseryAtStart := s.prevNursery, lateCrib := [] }
+    s := { s with epochNo := ep, epochStartSt := stc, nurseryAtStart := s.prevNursery, lateCrib := [], wipedFrom := none }
     if ep > 1 then
       if stc == 2 && !none_ then
         s := { s with ccEpoch := some ep, ccDeleted := s.deleted, touchedSinceCC := [],
